@@ -34,6 +34,8 @@ def check_tree(inp):
           ((str(i).encode(), t, w) for i, (t, w) in enumerate(zip(trees, weights))), None)[0]),
       ('tree_mean(reversed)', lambda: tree_util.tree_mean(list(zip(trees, weights))[::-1]))):
     got = fn()
+    if len(leaves(got)) != len(want):
+      return f'{label}: the result has {len(leaves(got))} leaves instead of {len(want)} (got {got!r:.80}) for weights {weights}'
     for g, w_, ks in zip(leaves(got), want, zip(*map(leaves, keep))):
       g = np.asarray(g)
       if np.isnan(g).any():
